@@ -5,6 +5,7 @@ go 1.21
 require (
 	github.com/machship/mpath v0.0.0
 	github.com/shopspring/decimal v1.3.1
+	gopkg.in/yaml.v3 v3.0.1
 )
 
 require (
@@ -18,7 +19,6 @@ require (
 	golang.org/x/net v0.22.0 // indirect
 	golang.org/x/text v0.14.0 // indirect
 	gopkg.in/yaml.v2 v2.4.0 // indirect
-	gopkg.in/yaml.v3 v3.0.1 // indirect
 )
 
 replace github.com/machship/mpath => /repo
